@@ -336,14 +336,7 @@ def run(ctx) -> None:
     rep.add("C09.R4", f"{rrd.qname}:pops-internal-key", ok and gate_guard, rrd.loc(), "restore pops the internal key from the outputs of gate nodes" if ok and gate_guard else "restore does not pop the internal routing key from the cached outputs")
 
     # ---- R9: identity-compared sentinels must not come back from a serialising backend ----
-    sent_restored = False
-    for n in walk_local(cc.node):
-        if isinstance(n, ast.Assign) and isinstance(n.value, ast.Name) and n.value.id == "_EMIT_SENTINEL" and any(isinstance(t, ast.Subscript) for t in n.targets):
-            lp = enclosing(n, (ast.For,))
-            if lp is not None and "outputs" in src(lp.iter) and "data_outputs" in src(lp.iter):
-                sent_restored = True
-    stored_filtered = any(isinstance(n, (ast.DictComp,)) and any("_EMIT_SENTINEL" in src(i) and "is not" in src(i) for g in n.generators for i in g.ifs) for n in walk_local(sic.node))
-    rep.add("C09.R9", f"{cc.qname}:emit-sentinel-identity", sent_restored or stored_filtered, cc.loc(), "emit outputs of a served entry are re-bound to the module sentinel (a serialising backend returns a copy, and the sentinel is compared by identity everywhere)" if sent_restored or stored_filtered else "a cached entry's emit outputs come back from the backend as they were stored: with a serialising backend the copy of the sentinel is no longer identical to it, leaks into the run's values and no longer advances the signal's version")
+    check_hit_restores_sentinel(ctx, "C09.R9")
 
     # ---- R6 / R7 -----------------------------------------------------------------
     ccfg = ctx.cfg(cc)
@@ -435,6 +428,40 @@ def run(ctx) -> None:
         ok = g is not None and "len(self._data) > self._max_size" in src(g.test) and "self._max_size is not None" in src(g.test)
     stores = [n for n in walk_local(s2.node) if isinstance(n, ast.Assign) and src(n.targets[0]) == "self._data[key]" and src(n.value) == "value"]
     rep.add("C09.R8", f"{s2.qname}", ok and len(stores) == 1, s2.loc(), "set stores the value and evicts only the least-recently-used entry when over capacity" if ok and stores else "InMemoryCache.set evicts other than the single LRU entry over capacity, or does not store the value")
+
+
+def check_hit_restores_sentinel(ctx, rule: str) -> None:
+    """On a cache hit the emit outputs of the served entry are re-bound to the module's sentinel object — for
+    every node kind (function nodes and gates alike): a serialising backend returns a copy, and the sentinel
+    is compared by identity when results are filtered and when versions are advanced."""
+    from sa.cfg import test_atoms
+
+    db, rep = ctx.db, ctx.rep
+    cc = db.func("runners._shared.caching.check_cache")
+    cands = [cc] + [g for g in db.all_funcs() if g.module == cc.module and g is not cc and g.parent is None]
+    verdicts = []
+    for f in cands:
+        cfg = ctx.cfg(f)
+        stores = [n for n in cfg.nodes if n.kind == "stmt" and isinstance(n.ast, ast.Assign) and isinstance(n.ast.value, ast.Name) and n.ast.value.id == "_EMIT_SENTINEL" and any(isinstance(t, ast.Subscript) for t in n.ast.targets) and enclosing(n.ast, (ast.For,)) is not None and "outputs" in src(enclosing(n.ast, (ast.For,)).iter)]
+        # the re-binding loop (it may run zero times): the loop header is what every hit path has to pass
+        stores = [n for n in cfg.nodes if n.kind == "for" and any(contains(n.ast, s_.ast) for s_ in stores)]
+        comp = [n for n in cfg.nodes if n.kind == "stmt" and any(isinstance(x, ast.DictComp) and "_EMIT_SENTINEL" in src(x) for x in ast.walk(n.ast))] if not stores else []
+        if not stores and not comp:
+            continue
+        kind_atoms = {src(a) for t in cfg.nodes if t.kind == "test" and t.ast is not None for a in test_atoms(t.ast) if isinstance(a, ast.Call) and dotted(a.func) == "isinstance"}
+        rets = [n for n in cfg.nodes if n.kind == "stmt" and isinstance(n.ast, ast.Return)]
+        hit_rets = [r for r in rets if not (isinstance(r.ast.value, ast.Tuple) and any(isinstance(e, ast.Constant) and e.value is None for e in r.ast.value.elts))] if f is cc else [cfg.exit_return]
+        ok_all = True
+        for polarity in (True, False):
+            val = {a: polarity for a in kind_atoms}
+            ef = specialize(val, cfg)
+            for r in hit_rets:
+                if reaches(cfg.entry, r, ef) and not all_paths_pass(cfg.entry, r, stores or comp, ef):
+                    ok_all = False
+        verdicts.append((f, ok_all))
+    ok = any(v for _, v in verdicts)
+    where = verdicts[0][0] if verdicts else cc
+    rep.add(rule, f"{cc.qname}:emit-sentinel-identity", ok, where.loc(), "emit outputs of a served entry are re-bound to the module sentinel for every node kind (a serialising backend returns a copy, and the sentinel is compared by identity everywhere)" if ok else "a cached entry's emit outputs come back from the backend as they were stored (for some node kind): with a serialising backend the copy of the sentinel is no longer identical to it, leaks into the run's values and no longer advances the signal's version")
 
 
 CA = "src/hypergraph/runners/_shared/caching.py"
